@@ -490,10 +490,10 @@ fn count_files(dir: &std::path::Path) -> usize {
     n
 }
 
-const GRACE: Duration = Duration::from_secs(20);
+const GRACE: Duration = Duration::from_secs(10);
 
 /// Err = machinery error (harness could not even set the run up).
-async fn run_async(q: &Query, c: &Case) -> Result<Report, String> {
+async fn run_async(q: &Query, c: &Case, check_release: bool) -> Result<Report, String> {
     let tmp = tempfile::tempdir().map_err(|e| format!("tempdir: {e}"))?;
     let real_pool: Arc<dyn MemoryPool> = match (c.limit, c.pool) {
         (None, _) => Arc::new(UnboundedMemoryPool::default()),
@@ -574,6 +574,9 @@ async fn run_async(q: &Query, c: &Case) -> Result<Report, String> {
     let start = Instant::now();
     let mut rounds = 0u32;
     let leak = loop {
+        if !check_release {
+            break None;
+        }
         match held(rt.as_ref()) {
             None => break None,
             Some(h) => {
@@ -607,14 +610,14 @@ enum Ran {
 
 /// One run on its own OS thread and its own current-thread runtime, under a
 /// wall-clock watchdog.
-fn run_guarded(q: &'static Query, c: &Case) -> Ran {
+fn run_guarded(q: &'static Query, c: &Case, check_release: bool) -> Ran {
     let (tx, rx) = std::sync::mpsc::channel();
     let c2 = c.clone();
     let limit = watchdog();
     let spawned = std::thread::Builder::new().name(format!("c18-{}", q.name)).spawn(move || {
         let r = mc_core::catch(|| {
             let rt = tokio::runtime::Builder::new_current_thread().enable_all().build().expect("tokio runtime");
-            let r = rt.block_on(async { tokio::time::timeout(limit, run_async(q, &c2)).await });
+            let r = rt.block_on(async { tokio::time::timeout(limit, run_async(q, &c2, check_release)).await });
             drop(rt);
             r
         });
@@ -641,7 +644,7 @@ fn reference(q: &'static Query) -> Result<Arc<Vec<Row>>, String> {
         return Ok(Arc::clone(r));
     }
     let c = Case { limit: None, ..base_case(q) };
-    let rows = match run_guarded(q, &c) {
+    let rows = match run_guarded(q, &c, false) {
         Ran::Done(Report { outcome: Outcome::Rows(r), .. }) => r,
         Ran::Done(Report { outcome: Outcome::Failed(_, m), .. }) => return Err(format!("unlimited run of {} failed: {m}", q.name)),
         Ran::Panic(p) => return Err(format!("unlimited run of {} panicked: {p}", q.name)),
@@ -770,7 +773,7 @@ fn judge(c: &Case) -> Result<Verdict, String> {
     let expected = reference(q)?;
     let mut v = Verdict { violations: vec![], spills: 0, by_op: BTreeMap::new(), class: "violation", plan: String::new(), rows: 0, grace_rounds: 0, failure: String::new() };
     let key = case_key(c);
-    match run_guarded(q, c) {
+    match run_guarded(q, c, true) {
         Ran::Machinery(m) => return Err(m),
         Ran::Panic(p) => v.violations.push((format!("panic|{key}"), format!("the query panicked: {p}"))),
         Ran::Hang(h) => v.violations.push((format!("hang|{key}"), format!("the query hangs: {h}"))),
@@ -854,8 +857,14 @@ fn explore(ctx: &Ctx) {
         ctx.machinery_error(format!("reference run failed: {e}"));
         return;
     }
+    let leaks = std::sync::atomic::AtomicUsize::new(0);
     all.par_iter().for_each(|c| {
         if ctx.should_stop() {
+            return;
+        }
+        if leaks.load(std::sync::atomic::Ordering::Relaxed) >= 6 {
+            // every leaking run costs the whole grace period (and two replays)
+            ctx.mark_capped("stopped after 6 runs that did not release everything");
             return;
         }
         ctx.eval();
@@ -888,6 +897,9 @@ fn explore(ctx: &Ctx) {
                     }
                 }
                 for (key, what) in v.violations {
+                    if key.starts_with("leak|") {
+                        leaks.fetch_add(1, std::sync::atomic::Ordering::Relaxed);
+                    }
                     ctx.violation(key, what, serde_json::to_value(c).unwrap());
                 }
             }
